@@ -87,6 +87,7 @@ def run_instance(inst, prop, findings, kfdir, rundir, say):
             continue
         rec["failures"].append(dict(name=name, desc=desc, prop=p, inputs=res["traces"].get(name, {}), log=res["log"]))
     rec["sample_inputs"] = {k: v["text"] for k, v in (sample or {}).items()}
+    rec["witness_bits"] = {k: v["bits"] for k, v in (sample or {}).items()}
     # known-finding runs: region assumed, the listed assertion must fail
     for k, f in rel:
         if f.get("status") != "known":
@@ -210,6 +211,23 @@ def check(prop, tier, only=None, extra_checks=None):
             violations.append(v)
         if e.get("broken"):
             broken = True
+    # validate solver traces against the implementation: the witness assignment of (a sample of) the instances that held is
+    # replayed on the native sanitizer build of the real sources; no harness assertion may fail there
+    wv = dict(validated=0, mismatched=[])
+    if not errs and recs:
+        import random
+        okrecs = [r for r in sorted(recs, key=lambda r: r["id"]) if r["status"] == "ok" and not r["failures"] and r.get("witness_bits") is not None]
+        if tier == "quick" and len(okrecs) > 10:
+            okrecs = random.Random(seed).sample(okrecs, 10)
+        try:
+            wv = R.replay_witnesses([(next(i for i in insts if i.id == r["id"]), r) for r in okrecs], kfdir, rundir)
+        except Exception as e:
+            wv = dict(validated=0, mismatched=[], error=str(e)[-400:])
+        for iid, what in wv["mismatched"]:
+            mismatches.append((iid, "-", ["witness trace does not replay cleanly on the native build: " + what]))
+            say("MODEL-MISMATCH property=%s # %s: witness trace of a passing instance fails natively: %s" % (prop, iid, what[:300]))
+        if wv.get("error"):
+            say("vx: witness replay unavailable: " + wv["error"])
     seen = set()
     for kid, what, iid in known_lines:
         if kid in seen:
@@ -220,7 +238,7 @@ def check(prop, tier, only=None, extra_checks=None):
         say("VIOLATION property=%s replay=%s  # %s: %s" % (prop, path, iid, "; ".join(descs)[:400]))
     for iid, path, descs in mismatches:
         say("MODEL-MISMATCH property=%s trace=%s  # %s: counterexample did not reproduce natively: %s" % (prop, path, iid, "; ".join(descs)[:400]))
-    write_evidence(prop, tier, seed, recs, extra, violations, mismatches, broken, time.time() - t0)
+    write_evidence(prop, tier, seed, recs, extra, violations, mismatches, broken, time.time() - t0, wv)
     R.cleanup()
     if not os.environ.get("VX_KEEP") and not violations and not mismatches and not broken:
         shutil.rmtree(rundir, ignore_errors=True)
@@ -232,7 +250,8 @@ def check(prop, tier, only=None, extra_checks=None):
     say("vx: property %s held on everything explored (%d instances, %.0fs)" % (prop, len(recs), time.time() - t0))
     return 0
 
-def write_evidence(prop, tier, seed, recs, extra, violations, mismatches, broken, wall):
+def write_evidence(prop, tier, seed, recs, extra, violations, mismatches, broken, wall, wv=None):
+    wv = wv or dict(validated=0, mismatched=[])
     fns = sorted({f for r in recs for f in r.get("functions_encoded", [])})
     bloc_fns = [f for f in demangle(fns) if f.startswith("bloc::") or f.startswith("bloc_") or "tokenizer" in f or f.startswith("vx")] if fns else []
     nass = sum(r.get("assertions", 0) for r in recs) + sum(e.get("assertions", 0) for e in extra)
@@ -253,7 +272,8 @@ def write_evidence(prop, tier, seed, recs, extra, violations, mismatches, broken
         property_id=prop, tier=tier, seed=seed, level="model_checking",
         coverage=dict(
             states=max(1, steps), transitions=max(1, nass),
-            traces_validated_against_impl=sum(1 for r in recs if r.get("replay")) + sum(e.get("replays", 0) for e in extra),
+            traces_validated_against_impl=wv["validated"] + sum(r["replay"]["cases"] for r in recs if r.get("replay")) + sum(e.get("replays", 0) for e in extra),
+            witness_traces_replayed_natively=wv["validated"],
             samples=samples or [dict(note="no instance ran")],
             evaluations=max(1, queries), distinct_nontrivial=max(0, n_ok),
             rule="one evaluation = one solver query (CBMC portfolio run or direct SMT query) over a harness instance; an instance is distinct by (kernel, instance parameters) and non-trivial when its witness assertion was shown reachable and all harness-error assertions held",
